@@ -402,23 +402,18 @@ func coqSim(c *SimCase) string {
 
 // ---- generation
 
-func genKernels(rng *vh.Rng, degenerate bool, big bool) [][][]int64 {
-	nk := 1 + rng.Intn(3)
+// kernel shapes: nk kernels, each with nbLo..nbHi thread blocks of nwLo..nwHi warps
+func genKernels(rng *vh.Rng, degenerate bool, nkMax, nbLo, nbHi, nwLo, nwHi int) [][][]int64 {
+	nk := 1 + rng.Intn(nkMax)
 	ks := make([][][]int64, 0, nk)
 	for i := 0; i < nk; i++ {
-		nb := 1 + rng.Intn(4)
-		if big {
-			nb = 2 + rng.Intn(6)
-		}
+		nb := nbLo + rng.Intn(nbHi-nbLo+1)
 		if degenerate && rng.Intn(6) == 0 {
 			nb = 0
 		}
 		k := make([][]int64, 0, nb)
 		for j := 0; j < nb; j++ {
-			nw := 1 + rng.Intn(5)
-			if big {
-				nw = 3 + rng.Intn(6)
-			}
+			nw := nwLo + rng.Intn(nwHi-nwLo+1)
 			if degenerate && rng.Intn(5) == 0 {
 				nw = 0
 			}
@@ -440,11 +435,51 @@ func genKernels(rng *vh.Rng, degenerate bool, big bool) [][][]int64 {
 	return ks
 }
 
+// Platform shapes: devices 1-4, SMs per device 1-8, sub-cores per SM 1-8.
+// Profiles (by case number) keep the total number of units moderate while
+// reaching every dimension's extremes:
+//   small : 1-3 x 1-4 x 1-4, 1-3 kernels of 1-4 blocks of 1-5 warps
+//   wide  : 1-2 devices, 1-2 SMs, 5-8 sub-cores; blocks of 5-12 warps, more
+//           blocks than SMs (more warps at once than the 4-deep port buffer holds)
+//   many  : 1-4 devices, 5-8 SMs, 1-3 sub-cores; 9-14 small blocks per kernel
+//           (more blocks than SMs, more SMs than the GPU's port buffer holds)
+//   mixed : devices 1-4 with independent 1-8 / 1-8 shapes (thorough tier sizes)
 func genCase(rng *vh.Rng, i int) *SimCase {
 	c := &SimCase{}
-	ng := 1 + rng.Pick(5, 3, 2)
-	for g := 0; g < ng; g++ {
-		c.GPUs = append(c.GPUs, GPUShape{SMs: 1 + rng.Intn(4), Subs: 1 + rng.Intn(4)})
+	degenerate := i%3 == 1
+	switch {
+	case i%4 == 1 || i%4 == 2 && i%8 != 2: // wide (3 of 8)
+		ng := 1 + rng.Intn(2)
+		for g := 0; g < ng; g++ {
+			c.GPUs = append(c.GPUs, GPUShape{SMs: 1 + rng.Intn(2), Subs: 5 + rng.Intn(4)})
+		}
+		c.Kernels = genKernels(rng, degenerate, 2, 2, 5, 5, 12)
+		c.Tag = "wide"
+	case i%8 == 2 || i%8 == 7: // many SMs (2 of 8)
+		ng := 1 + rng.Pick(4, 3, 2, 1)
+		for g := 0; g < ng; g++ {
+			c.GPUs = append(c.GPUs, GPUShape{SMs: 5 + rng.Intn(4), Subs: 1 + rng.Intn(3)})
+		}
+		c.Kernels = genKernels(rng, degenerate, 2, 9, 14, 1, 3)
+		c.Tag = "many"
+	case i%16 == 3: // mixed, anything up to 4 x 8 x 8
+		ng := 1 + rng.Intn(4)
+		for g := 0; g < ng; g++ {
+			c.GPUs = append(c.GPUs, GPUShape{SMs: 1 + rng.Intn(8), Subs: 1 + rng.Intn(8)})
+		}
+		c.Kernels = genKernels(rng, degenerate, 3, 1, 10, 1, 12)
+		c.Tag = "mixed"
+	default: // small
+		ng := 1 + rng.Pick(5, 3, 2)
+		for g := 0; g < ng; g++ {
+			c.GPUs = append(c.GPUs, GPUShape{SMs: 1 + rng.Intn(4), Subs: 1 + rng.Intn(4)})
+		}
+		big := i%7 == 3
+		if big {
+			c.Kernels = genKernels(rng, degenerate, 3, 2, 7, 3, 8)
+		} else {
+			c.Kernels = genKernels(rng, degenerate, 3, 1, 4, 1, 5)
+		}
 	}
 	if rng.Intn(3) == 0 { // uniform shape
 		for g := range c.GPUs {
@@ -455,12 +490,10 @@ func genCase(rng *vh.Rng, i int) *SimCase {
 	if rng.Bool() {
 		c.Freq = "ghz"
 	}
-	degenerate := i%3 == 1
-	big := i%7 == 3
-	c.Kernels = genKernels(rng, degenerate, big)
 	if i%11 == 5 { // many sub-cores reporting at once: fills the SM's 4-deep buffer
 		c.GPUs = []GPUShape{{SMs: 1 + rng.Intn(2), Subs: 4}}
 		c.Kernels = [][][]int64{{{2, 2, 2, 2, 2, 2, 2, 2}, {1, 1, 1, 1}}}
+		c.Tag = "full"
 	}
 	return c
 }
